@@ -6,6 +6,7 @@ R18a  every write of the interpreter emits template text, a tag serialised by ta
 R18b  python gate: with allowPythonPath false no eval/exec/compile/__import__ is
       reachable in simpletal; the flag is stored unchanged; the TAL handler passes the
       configuration option through
+R18d  template text is re-escaped when it is compiled (handle_data; reference handlers dormant or escaping)
 R18c  locals pairing: every pushLocals / addRepeat sets a flag that is part of the saved
       scope state, and every popLocals / removeRepeat is reached only under that flag
 Pass-through fidelity, idempotence and context equality after expansion are not decided.
@@ -39,7 +40,10 @@ def check(ctx, rep):
     rep.rule("R18a", "interpreter writes: template text, tagAsText output, or html.escape()d results; raw results only under the structure flag", floor=8)
     rep.rule("R18b", "no eval/exec reachable with allowPythonPath false; flag stored unchanged; handler passes the option through", floor=3)
     rep.rule("R18c", "pushLocals/addRepeat set a saved flag; popLocals/removeRepeat only under that flag", floor=4)
+    rep.rule("R18d", "template text reaches the compiled program escaped: handle_data escapes; character/entity reference handlers "
+             "are dormant (html.parser converts references first) or escape what they decode", floor=2)
     rep.assume("simpleTALUtils (macro expansion utility) is not used by template expansion and is out of scope")
+    compile_text_obligations(ctx, rep, "R18d")
     mod = prog.modules.get("simpletal.simpleTAL")
     tales = prog.modules.get("simpletal.simpleTALES")
     if mod is None or tales is None:
@@ -318,6 +322,64 @@ def context_symmetry(ctx, rep, rule, tales):
             problems.append("addRepeat does not push locals for the loop variable")
         rep.add(rule, f"Context.{push}/{pop}: {what} scoped by stack", not problems, ctx.where(pf) if pf else tales.relpath,
                 "; ".join(sorted(set(problems))), key=f"{rule}|context|{push}")
+
+
+def compile_text_obligations(ctx, rep, rule):
+    """HTML templates: text between tags is re-escaped before it becomes a TAL_OUTPUT command.  html.parser hands
+    handle_data() text with character references already converted (convert_charrefs is True by default), so
+    handle_data must escape; handle_charref/handle_entityref are only called when convert_charrefs is switched off,
+    and then they must escape what they decode as well."""
+    prog = ctx.prog
+    mod = prog.modules.get("simpletal.simpleTAL")
+    comp = mod.classes.get("HTMLTemplateCompiler") if mod else None
+    if comp is None:
+        rep.fail(rule, "HTMLTemplateCompiler", detail="HTML template compiler not found")
+        return
+
+    def escaped_arg(call, m):
+        """is the argument of self.parseData(...) html.escape()d, or handed to handle_data()?"""
+        a = call.args[0] if call.args else None
+        from ..facts import expand_ast
+
+        a = expand_ast(a, m) if a is not None else None
+        return isinstance(a, ast.Call) and (dotted(a.func) or "") in ("html.escape", "cgi.escape", "xml.sax.saxutils.escape")
+
+    hd = prog.resolve_method(comp, "handle_data")
+    problems = []
+    if hd is None:
+        problems.append("handle_data not found")
+    else:
+        pcs = [n for n in ast.walk(hd.node) if isinstance(n, ast.Call) and isinstance(n.func, ast.Attribute) and n.func.attr == "parseData"]
+        if not pcs:
+            problems.append("handle_data does not add the text to the program")
+        for c in pcs:
+            if not escaped_arg(c, hd):
+                problems.append(f"`{norm(c)[:50]}` adds template text unescaped: a literal &lt; in the source comes out as <")
+    rep.add(rule, "handle_data escapes template text", not problems, ctx.where(hd) if hd else "simpletal/simpleTAL.py", "; ".join(problems), key=f"{rule}|handle_data")
+    # are the reference handlers live?
+    live = []
+    for m_ in prog.modules.values():
+        if not m_.name.startswith("simpletal"):
+            continue
+        for n in ast.walk(m_.tree):
+            if isinstance(n, ast.Call):
+                for k in n.keywords:
+                    if k.arg == "convert_charrefs" and not (isinstance(k.value, ast.Constant) and k.value.value is True):
+                        live.append(f"{m_.relpath}:{n.lineno}")
+            if isinstance(n, ast.Assign) and any(isinstance(t, ast.Attribute) and t.attr == "convert_charrefs" for t in n.targets) \
+                    and not (isinstance(n.value, ast.Constant) and n.value.value is True):
+                live.append(f"{m_.relpath}:{n.lineno}")
+    problems = []
+    for name in ("handle_charref", "handle_entityref"):
+        m = prog.resolve_method(comp, name)
+        if m is None:
+            continue
+        for c in [n for n in ast.walk(m.node) if isinstance(n, ast.Call) and isinstance(n.func, ast.Attribute) and n.func.attr == "parseData"]:
+            if live and not escaped_arg(c, m):
+                problems.append(f"character references are delivered to {name}() (convert_charrefs switched off at {live[0]}) and `{norm(c)[:50]}` "
+                                "adds the decoded character unescaped: &#60;b&#62; in a template becomes a real <b> element")
+    rep.add(rule, "reference handlers dormant or escaping" + (" (live)" if live else " (dormant: html.parser converts references before handle_data)"),
+            not problems, "simpletal/simpleTAL.py", "; ".join(problems), key=f"{rule}|refs")
 
 
 def _flatten_add(n):
